@@ -1,5 +1,70 @@
 import Sigc.Model
-import Sigc.Spec
-/-! property theorems for C13 (being written) -/
+import Sigc.Lemmas.Basic
+/-!
+# C13 — emission results: last slot's value, or the accumulator's verdict
+(first theorems about `slot_iterator_buf::operator*` = `deref`; more in Sigc/Lemmas/Step*.lean)
+-/
 namespace Sigc.C13
+open Sigc.Model
+
+/-- dereferencing a position again without moving invokes nothing and returns the buffered value:
+    state, outcome and iterator are unchanged — whatever the slot, program and fuel -/
+theorem deref_twice_invokes_once (f : Nat) (P : Prog) (s : St) (i arg : Nat) (it : IterBuf) (im : Impl) (c : Cell)
+    (hi : aget s.impls i = some im) (hc : im.cells.find? (·.id = it.pos) = some c) (hinv : it.invoked = true) :
+    deref (f+1) P s i it arg = some (s, .ok, it) := by
+  rw [deref]
+  simp only [hi, hc]
+  cases hrep : c.slot.rep with
+  | none => rfl
+  | some rp =>
+    obtain ⟨call, fn⟩ := rp
+    cases call <;> cases fn <;> simp [hinv]
+
+/-- a blocked position is never invoked -/
+theorem deref_blocked_not_invoked (f : Nat) (P : Prog) (s : St) (i arg : Nat) (it : IterBuf) (im : Impl) (c : Cell)
+    (hi : aget s.impls i = some im) (hc : im.cells.find? (·.id = it.pos) = some c) (hb : c.slot.blocked = true) :
+    deref (f+1) P s i it arg = some (s, .ok, it) := by
+  rw [deref]
+  simp only [hi, hc]
+  cases hrep : c.slot.rep with
+  | none => rfl
+  | some rp =>
+    obtain ⟨call, fn⟩ := rp
+    cases call <;> cases fn <;> simp [hb]
+
+/-- an empty / invalidated position (or an end marker) is never invoked -/
+theorem deref_invalid_not_invoked (f : Nat) (P : Prog) (s : St) (i arg : Nat) (it : IterBuf) (im : Impl) (c : Cell)
+    (hi : aget s.impls i = some im) (hc : im.cells.find? (·.id = it.pos) = some c) (he : c.slot.empty = true) :
+    deref (f+1) P s i it arg = some (s, .ok, it) := by
+  rw [deref]
+  simp only [hi, hc]
+  unfold SlotB.empty at he
+  cases hrep : c.slot.rep with
+  | none => rfl
+  | some rp =>
+    rw [hrep] at he
+    obtain ⟨call, fn⟩ := rp
+    have : call = false := by simpa using he
+    subst this
+    rfl
+
+/-- a successful first dereference of a callable position buffers the functor's result and marks the position invoked -/
+theorem deref_callable (f : Nat) (P : Prog) (s s' : St) (i arg v : Nat) (it : IterBuf) (im : Impl) (c : Cell) (fn : Fun)
+    (hi : aget s.impls i = some im) (hc : im.cells.find? (·.id = it.pos) = some c)
+    (hrep : c.slot.rep = some { call := true, fn := some fn }) (hb : c.slot.blocked = false) (hinv : it.invoked = false)
+    (hx : invokeFun f P s fn arg = some (s', .ok, v)) :
+    deref (f+1) P s i it arg = some (s', .ok, { it with buf := v, invoked := true }) := by
+  rw [deref]
+  simp [hi, hc, hrep, hb, hinv, hx]
+
+/-- a signal that never had a slot list returns the default value and runs nothing -/
+theorem emit_without_impl (f : Nat) (P : Prog) (s : St) (fl : Flavour) (arg : Nat) (st : Strat) :
+    emitImpl (f+1) P s fl none arg st = some (s, .ok, 0) := by
+  rw [emitImpl]
+
+/-- the value-initialised buffer: a fresh iterator holds 0 and is not yet invoked -/
+theorem fresh_iterator (p : Nat) : ({ pos := p } : IterBuf).buf = 0 ∧ ({ pos := p } : IterBuf).invoked = false := ⟨rfl, rfl⟩
+
+example : emitImpl 1 { bodies := [], top := [] } {} .A none 3 .sum = some ({}, .ok, 0) := emit_without_impl 0 _ _ _ _ _
+
 end Sigc.C13
